@@ -6,7 +6,7 @@ import time
 import traceback
 
 
-def verify_function(key: str, budget_ms: int = 10000) -> dict:
+def verify_function(key: str, budget_ms: int = 8000) -> dict:
     from .project import Project
     from .vc import FunctionVC
     from .solve import check_obligation
@@ -24,8 +24,14 @@ def verify_function(key: str, budget_ms: int = 10000) -> dict:
         out["gen_s"] = round(time.time() - t0, 3)
         out["paths"] = list(vc.n_paths)
         mustfail = []
+        spent = 0.0
         for ob in obs:
-            st, dt, detail = check_obligation(vc, ob, 3000 if ob.kind == "mustfail" else budget_ms)
+            if spent > 150:
+                st, dt, detail = "unknown", 0.0, "skipped: per-function solver budget (150 s) exhausted"
+            else:
+                st, dt, detail = check_obligation(vc, ob, 3000 if ob.kind == "mustfail" else budget_ms)
+            if st != "proved":
+                spent += dt
             rec = {"name": ob.name, "kind": ob.kind, "status": st, "secs": round(dt, 3), "clause": str(ob.info.get("clause", ""))[:400],
                    "aux": bool(ob.aux), "path": ob.info.get("path", ""), "backend": detail if st == "proved" else "", "detail": "" if st == "proved" else str(detail)[:1500]}
             if "trace" in ob.info:
